@@ -126,10 +126,27 @@ var outNames = [...]string{"value", "no-value", "error", "unspecified"}
 
 func (o Outcome) String() string { return outNames[o] }
 
-// Select is the reference interpreter: segments one after the other.
+// Select is the reference interpreter: segments one after the other. Once an optional
+// field/index segment has yielded "no value", the remaining segments are resolved against
+// "no value": identity keeps it, every non-optional segment fails on it (an error, as the
+// property says of any failing non-optional segment), an optional field/index keeps "no
+// value"; an optional slice/iterator on "no value" is not pinned by the property.
 func Select(s Sel, d V) (Outcome, V) {
 	cur := d
-	for i, g := range s {
+	novalue := false
+	for _, g := range s {
+		if novalue {
+			switch {
+			case g.Kind == SIdentity:
+				continue
+			case !g.Opt:
+				return OError, V{}
+			case g.Kind == SField || g.Kind == SIndex:
+				continue
+			default:
+				return OUnspec, V{}
+			}
+		}
 		next, ok := step(g, cur)
 		if ok {
 			cur = next
@@ -141,16 +158,13 @@ func Select(s Sel, d V) (Outcome, V) {
 		}
 		switch g.Kind {
 		case SField, SIndex:
-			// "no value"; what later segments do with "no value" is not pinned by the property
-			for _, r := range s[i+1:] {
-				if r.Kind != SIdentity {
-					return OUnspec, V{}
-				}
-			}
-			return ONoValue, V{}
+			novalue = true
 		default:
 			return OUnspec, V{}
 		}
+	}
+	if novalue {
+		return ONoValue, V{}
 	}
 	return OValue, cur
 }
